@@ -51,3 +51,37 @@ VARIANTS = [
       "            y[day, away_idx] = -(home_idx + 1)\n"
       "            y[day, home_idx] = 1 + away_idx", "silent"),
 ]
+
+_PLACE = (
+    "            if (y[day, home_idx] != 0) or (y[day, away_idx] != 0):\n"
+    "                continue  # day already blocked\n"
+    "            y[day, home_idx] = away_idx + 1\n"
+    "            y[day, away_idx] = -(home_idx + 1)\n"
+    "            break\n")
+_SEARCH = (
+    "            if (y[day, home_idx] == 0) and (y[day, away_idx] == 0):\n"
+    "                break\n")
+VARIANTS += [
+    V("search-then-write-recheck-home-only", G, _PLACE, _SEARCH
+      + "        if y[day, home_idx] == 0:\n"
+      "            y[day, home_idx] = away_idx + 1\n"
+      "            y[day, away_idx] = -(home_idx + 1)\n", "fire", "D15.1",
+      "seed C15-search-then-write: an unplaceable game overwrites the away "
+      "team's cell of the last day"),
+    V("silent-search-then-write", G, _PLACE, _SEARCH
+      + "        if (y[day, home_idx] == 0) and (y[day, away_idx] == 0):\n"
+      "            y[day, home_idx] = away_idx + 1\n"
+      "            y[day, away_idx] = -(home_idx + 1)\n", "silent", "",
+      "behaviour-preserving refactoring: search, then write under the "
+      "full re-check"),
+    V("silent-positive-guard", G, _PLACE,
+      "            if (y[day, home_idx] == 0) and (y[day, away_idx] == 0):\n"
+      "                y[day, home_idx] = away_idx + 1\n"
+      "                y[day, away_idx] = -(home_idx + 1)\n"
+      "                break\n", "silent", ""),
+    V("skips-a-free-day", G,
+      "            if (y[day, home_idx] != 0) or (y[day, away_idx] != 0):",
+      "            if (y[day, home_idx] != 0) or (y[day, away_idx] != 0) "
+      "or (day == 1):", "fire", "D15.1",
+      "an extra condition makes the scan pass over a free day"),
+]
